@@ -131,11 +131,35 @@ CreateMTag(b, n, t, pos, ext) ==
     LET a == [name |-> "CreateMTag", owner |-> b, n |-> n, t |-> t, pos |-> pos, ext |-> ext,
               new |-> next, out |-> "ok"] IN
     /\ CanStep
-    /\ Kind(b) = "block" /\ pos \in Kids(b, "array") /\ ext \in Kids(b, "array") \cup {None}
+    /\ Kind(b) = "block" /\ Kind(pos) = "array" /\ (ext = None \/ Kind(ext) = "array")
     /\ IF NameTaken(b, "mtag", n)
          THEN "DuplicateName" \in Faults /\ Refuse(a, "refused:DuplicateName")
+         ELSE IF BlockOf(pos) # b \/ (ext # None /\ BlockOf(ext) # b)
+         THEN "ForeignBlock" \in Faults /\ Refuse(a, "refused:ForeignBlock")
          ELSE /\ Room("mtag")
               /\ AddObj([NewRec("mtag", n, b, t) EXCEPT !.rl = [EmptyRoles EXCEPT !["positions"] = pos, !["extents"] = ext]])
+              /\ Log(a)
+
+\* create_multi_tag with array-like positions (and extents): the library first creates the arrays
+\* "<name>-positions" / "<name>-extents", then the tag, and rolls the arrays back when a later step fails
+PosName(n) == "pos:" \o n
+ExtName(n) == "ext:" \o n
+CreateMTagAuto(b, n, t, withExt) ==
+    LET a == [name |-> "CreateMTagAuto", owner |-> b, n |-> n, t |-> t, ext |-> withExt, new |-> next, out |-> "ok"]
+        k == IF withExt THEN 2 ELSE 1
+        posrec == NewRec("array", PosName(n), b, t + 100)
+        extrec == [NewRec("array", ExtName(n), b, t + 200) EXCEPT !.eid = next + 1]
+        tagrec == [NewRec("mtag", n, b, t) EXCEPT !.eid = next + k,
+                       !.rl = [EmptyRoles EXCEPT !["positions"] = next, !["extents"] = IF withExt THEN next + 1 ELSE None]]
+        news == IF withExt THEN << posrec, extrec, tagrec >> ELSE << posrec, tagrec >> IN
+    /\ CanStep /\ Kind(b) = "block"
+    /\ IF NameTaken(b, "mtag", n) \/ NameTaken(b, "array", PosName(n)) \/ (withExt /\ NameTaken(b, "array", ExtName(n)))
+         THEN "DuplicateName" \in Faults /\ Refuse(a, "refused:DuplicateName")
+         ELSE /\ next + k <= MaxObj /\ Count("mtag") < Limit["mtag"] /\ Count("array") + k <= Limit["array"]
+              /\ objs' = objs \cup (next..(next + k))
+              /\ rec' = [o \in objs \cup (next..(next + k)) |-> IF o >= next THEN news[o - next + 1] ELSE rec[o]]
+              /\ next' = next + k + 1
+              /\ UNCHANGED << clock, auto, fts >>
               /\ Log(a)
 
 \* a feature has no name; its data must be an array of the tag's block
@@ -171,6 +195,7 @@ Create ==
     \/ \E p \in objs, n \in Names, t \in Vals : Kind(p) \in { "block", "source" } /\ CreateNamed("source", p, n, t)
     \/ \E p \in objs \cup {FILE}, n \in Names, t \in Vals : Kind(p) \in { "file", "section" } /\ CreateNamed("section", p, n, t)
     \/ \E b \in objs, n \in Names, t \in Vals, pos \in objs, ext \in objs \cup {None} : CreateMTag(b, n, t, pos, ext)
+    \/ ("mtagauto" \in Ops /\ \E b \in objs, n \in Names, t \in Vals, w \in BOOLEAN : CreateMTagAuto(b, n, t, w))
     \/ \E tg \in objs, d \in objs, lt \in Vals : CreateFeature(tg, d, lt)
     \/ \E s \in objs, n \in Names, v \in Vals : CreateProperty(s, n, v)
 
@@ -274,9 +299,8 @@ SetRole(o, r, x) ==
     \* positions / extents of the wrong kind: no property demands a refusal - not generated (left open)
     /\ (r \in { "positions", "extents" }) => Kind(x) = RoleKind(r)
     /\ IF Kind(x) # RoleKind(r) THEN "WrongKind" \in Faults /\ Refuse(a, "refused:WrongKind")
-       ELSE IF r = "data" /\ BlockOf(x) # BlockOf(o) THEN "ForeignBlock" \in Faults /\ Refuse(a, "refused:ForeignBlock")
-       ELSE /\ r \in { "positions", "extents" } => BlockOf(x) = BlockOf(o)    \* other block: left open
-            /\ rec' = [rec EXCEPT ![o] = IF r = "metadata" THEN [@ EXCEPT !.rl[r] = x]
+       ELSE IF r # "metadata" /\ BlockOf(x) # BlockOf(o) THEN "ForeignBlock" \in Faults /\ Refuse(a, "refused:ForeignBlock")
+       ELSE /\ rec' = [rec EXCEPT ![o] = IF r = "metadata" THEN [@ EXCEPT !.rl[r] = x]
                                                            ELSE Touch([@ EXCEPT !.rl[r] = x])]
             /\ Log(a) /\ UNCHANGED << objs, next, clock, auto, fts >>
 
@@ -377,7 +401,9 @@ LinkKindAndBlock == \A o \in objs : \A l \in ListNames :
           /\ \A j \in 1..Len(rec[o].ls[l]) : j # i => rec[o].ls[l][j] # x
 
 RoleKindOK == \A o \in objs : \A r \in RoleNames :
-    (rec[o].rl[r] # None /\ rec[o].rl[r] \in objs) => (r \in RolesOf(Kind(o)) /\ Kind(rec[o].rl[r]) = RoleKind(r))
+    (rec[o].rl[r] # None /\ rec[o].rl[r] \in objs) =>
+        /\ r \in RolesOf(Kind(o)) /\ Kind(rec[o].rl[r]) = RoleKind(r)
+        /\ r # "metadata" => BlockOf(rec[o].rl[r]) = BlockOf(o)      \* positions, extents, feature data stay in the block
 
 (***************************************************************************)
 (* action properties                                                       *)
@@ -435,11 +461,57 @@ ObjView(rc, o) == [id |-> o, kind |-> rc[o].kind, name |-> rc[o].name, owner |->
 Vis(ob, rc, ck, au, ft) == [objs |-> [i \in 1..Cardinality(ob) |-> ObjView(rc, SetToSeq(ob)[i])],
                             clock |-> ck, auto |-> au, fts |-> ft]
 
+(***************************************************************************)
+(* observables for C13: breadth-first searches                             *)
+(***************************************************************************)
+RECURSIVE Flat(_)
+Flat(ss) == IF ss = << >> THEN << >> ELSE Head(ss) \o Flat(Tail(ss))
+ChildSeqOf(ob, rc, o, k) == SetToSeq({ x \in ob : rc[x].owner = o /\ rc[x].kind = k })
+RECURSIVE Levels(_, _, _, _, _, _)
+\* cur: the entities of level lvl in order; children are included while their level <= limit
+Levels(ob, rc, cur, k, lvl, limit) ==
+    IF cur = << >> THEN << >>
+    ELSE cur \o (IF lvl + 1 <= limit
+                   THEN Levels(ob, rc, Flat([i \in 1..Len(cur) |-> ChildSeqOf(ob, rc, cur[i], k)]), k, lvl + 1, limit)
+                   ELSE << >>)
+Unlimited == 1000
+FindLimits == { 0, 1, 2, 3, 4, Unlimited }
+\* search started at an entity (level 0) or at the file / a block (its children are level 1)
+FindFrom(ob, rc, root, k, limit) ==
+    IF root # FILE /\ rc[root].kind = k
+      THEN Levels(ob, rc, << root >>, k, 0, limit)
+      ELSE Levels(ob, rc, ChildSeqOf(ob, rc, root, k), k, 1, limit)
+ObsOf(ob, rc) ==
+    LET secroots == {FILE} \cup { o \in ob : rc[o].kind = "section" }
+        srcroots == { o \in ob : rc[o].kind \in { "block", "source" } }
+        items == { << r, "section", l >> : r \in secroots, l \in FindLimits } \cup
+                 { << r, "source", l >> : r \in srcroots, l \in FindLimits }
+    IN  [i \in items |-> FindFrom(ob, rc, i[1], i[2], i[3])]
+ObsSeq(ob, rc) ==
+    LET f == ObsOf(ob, rc)
+        dom == DOMAIN f
+    IN  { [root |-> i[1], kind |-> i[2], limit |-> i[3], res |-> f[i]] : i \in dom }
+
+\* C13: a search returns each entity at most once, only entities below the root (or the root),
+\* and a larger limit returns a super-sequence that starts with the smaller result
+SearchSound == ("obs" \in Ops) =>
+    \A it \in ObsSeq(objs, rec) :
+        /\ \A i, j \in 1..Len(it.res) : i # j => it.res[i] # it.res[j]
+        /\ \A i \in 1..Len(it.res) : it.res[i] \in (IF it.root = FILE THEN objs ELSE Sub(it.root)) /\ rec[it.res[i]].kind = it.kind
+        /\ it.limit = Unlimited =>
+              { it.res[i] : i \in 1..Len(it.res) } =
+              { x \in (IF it.root = FILE THEN objs ELSE Sub(it.root)) : rec[x].kind = it.kind }
+SearchMonotone == ("obs" \in Ops) =>
+    \A a \in ObsSeq(objs, rec), b \in ObsSeq(objs, rec) :
+        (a.root = b.root /\ a.kind = b.kind /\ a.limit <= b.limit) =>
+            (Len(a.res) <= Len(b.res) /\ SubSeq(b.res, 1, Len(a.res)) = a.res)
+
 \* scripted prefix: while the script lasts, only the scripted call is taken
 Scripted == Len(hist) < Len(Script) => act' = Script[Len(hist) + 1]
 
 DoExport == PrintT(<<"TX", ToJson([hist |-> hist, act |-> act',
                                  from |-> Vis(objs, rec, clock, auto, fts),
-                                 to |-> IF View' = View THEN [same |-> TRUE] ELSE Vis(objs', rec', clock', auto', fts')])>>)
+                                 to |-> IF View' = View THEN [same |-> TRUE] ELSE Vis(objs', rec', clock', auto', fts'),
+                                 obs |-> IF "obs" \in Ops THEN ObsSeq(objs', rec') ELSE {}])>>)
 Export == Scripted /\ DoExport
 =============================================================================
